@@ -13,9 +13,11 @@ contract('parso.tree.TypedLeaf.__init__',
                   'self.type == type', 'self.parent is None'],
          modifies=['self.value', 'self.prefix', 'self.line', 'self.column', 'self.parent', 'self.type'], props=['C19'])
 contract('parso.tree.ErrorLeaf.__init__',
-         params={'self': 'ref:ErrorLeaf', 'token_type': 'str', 'value': 'str', 'start_pos': 'pos', 'prefix': 'str'},
+         # token_type is a str (Parser.error_recovery: typ.name) or a token type object (BaseParser.error_recovery):
+         # declared opaque, nothing is promised about the stored field
+         params={'self': 'ref:ErrorLeaf', 'token_type': 'any', 'value': 'str', 'start_pos': 'pos', 'prefix': 'str'},
          ensures=['self.value == value', 'self.prefix == prefix', 'self.line == start_pos[0]', 'self.column == start_pos[1]',
-                  'self.token_type == token_type', 'self.parent is None'],
+                  'self.parent is None'],
          modifies=['self.value', 'self.prefix', 'self.line', 'self.column', 'self.parent', 'self.token_type'], props=['C19', 'C07'])
 
 # every child's parent is the new node, the children list is the one given, nothing else changes
